@@ -189,3 +189,58 @@ pub fn raw_negotiate(peer: &UnixStream, srv: &mut Srv, virtio: u64, pf: u64) {
         d.close_fds();
     }
 }
+
+/// Who could still write to the frontend's socket while a call is in progress.
+#[derive(Clone, Copy)]
+pub enum PeerKind {
+    /// a raw peer driven by the harness thread itself: everything the call will ever receive
+    /// was written before the call started
+    Raw,
+    /// a server thread (tid) reading requests from `fd`: it is idle when parked in recvmsg with
+    /// nothing queued
+    Served { tid: i32, fd: std::os::unix::io::RawFd },
+}
+
+/// Run one frontend call on a helper thread and decide from thread states whether it can still
+/// return: the caller is parked in recvmsg, nothing is queued for it, and nobody is left who
+/// could write (blocked-reader certificate, sampled repeatedly). A blocked call is released by
+/// shutting the socket down; the flag tells the caller that the call would never have returned.
+pub fn exec_bounded(f: &mut Frontend, op: &crate::ops::FeOp, lent: &mut crate::ops::Lent, peer: PeerKind) -> (Result<crate::ops::Outcome, PanicRec>, bool) {
+    use std::sync::atomic::{AtomicI32, Ordering};
+    let ffd = f.as_raw_fd();
+    let tid = AtomicI32::new(0);
+    let mut blocked = false;
+    let out = std::thread::scope(|s| {
+        let h = s.spawn(|| {
+            tid.store(sys::gettid(), Ordering::SeqCst);
+            catch(|| op.exec(f, lent))
+        });
+        let mut streak = 0;
+        let mut spins = 0u32;
+        while !h.is_finished() {
+            spins += 1;
+            if spins < 20 {
+                std::thread::yield_now();
+                continue;
+            }
+            let t = tid.load(Ordering::SeqCst);
+            let idle_peer = match peer {
+                PeerKind::Raw => true,
+                PeerKind::Served { tid, fd } => tid == -1 || (tid > 0 && sys::inq(fd) == 0 && sys::parked_in(tid, &[sys::SYS_RECVMSG])),
+            };
+            if t > 0 && sys::inq(ffd) == 0 && idle_peer && sys::parked_in(t, &[sys::SYS_RECVMSG]) && sys::inq(ffd) == 0 {
+                streak += 1;
+                if streak >= 5 {
+                    blocked = true;
+                    unsafe { libc::shutdown(ffd, libc::SHUT_RDWR) };
+                    break;
+                }
+            } else {
+                streak = 0;
+            }
+            std::thread::sleep(std::time::Duration::from_micros(100));
+        }
+        h.join().unwrap_or_else(|_| Err(PanicRec { location: "?".into(), msg: "helper thread panicked".into(), thread: "?".into() }))
+    });
+    (out, blocked)
+}
